@@ -1281,12 +1281,266 @@ mod gen {
 
 mod stack {
     use super::*;
+    use minidump::format::CONTEXT_X86;
+    use minidump::system_info::{Cpu, Os};
+    use minidump::{
+        MinidumpContext, MinidumpContextValidity, MinidumpMemory, MinidumpModule, MinidumpModuleList,
+        MinidumpRawContext, UnifiedMemory,
+    };
+    use minidump_unwind::{string_symbol_supplier, walk_stack, CallStack, FrameTrust, Symbolizer, SystemInfo};
+    use std::collections::{HashMap, HashSet};
 
-    pub fn generate(_n: usize, _rng: &mut Rng, _emit: &mut dyn FnMut(String)) {}
+    const MODULE_SIZE: u32 = 0x10_0000;
 
-    pub fn exec(_c: &Case) -> ImplResult {
+    /// Cases for the real unwinder: a context frame inside `module1`, the stack pointer inside the
+    /// stack memory, one or two STACK WIN records covering the instruction.
+    pub fn generate(n: usize, rng: &mut Rng, emit: &mut dyn FnMut(String)) {
+        for k in 0..n {
+            let base: u64 = 0x4000_0000;
+            let off: u64 = 0x1000 + rng.below(0x80);
+            let eip = (base + off) as u32;
+            let words = 16 + rng.below(32) as usize;
+            let mem_base: u64 = 0x8000_0000 + 0x10 * rng.below(8);
+            let mut mem = vec![];
+            for i in 0..words {
+                let v: u32 = match rng.below(6) {
+                    0 => eip,
+                    1 => (mem_base as u32) + 4 * rng.below(words as u64) as u32,
+                    2 => 0x4000_2000 + rng.below(0x1000) as u32, // a plausible return address in the module
+                    3 => 0x4000_2000 + rng.below(0x1000) as u32,
+                    4 => 0,
+                    _ => 0x0100_0000 + ((i as u32) << 8),
+                };
+                mem.extend_from_slice(&v.to_le_bytes());
+            }
+            let esp = (mem_base as u32) + 4 * rng.below(words as u64 / 2) as u32;
+            let ebp = (mem_base as u32) + 4 * rng.below(words as u64) as u32;
+            let mut regs: Vec<(String, u32)> = vec![("eip".into(), eip), ("esp".into(), esp)];
+            if !rng.chance(1, 10) {
+                regs.push(("ebp".into(), ebp));
+            }
+            if !rng.chance(1, 4) {
+                regs.push(("ebx".into(), 0xb000_0000 + rng.below(256) as u32));
+            }
+            if !rng.chance(1, 4) {
+                regs.push(("esi".into(), 0x5100_0000 + rng.below(256) as u32));
+            }
+            if !rng.chance(1, 4) {
+                regs.push(("edi".into(), 0xd100_0000 + rng.below(256) as u32));
+            }
+            if rng.chance(1, 3) {
+                regs.push(("eax".into(), 0xa000_0000 + rng.below(256) as u32));
+            }
+            let small = |rng: &mut Rng| 4 * rng.below(6) as u32;
+            let mut recs = vec![];
+            let lo = off - rng.below(0x10);
+            let size = (off - lo) as u32 + 1 + rng.below(0x20) as u32;
+            let prog = if k % 4 == 0 {
+                // the classic shape: only $eip and $esp (and sometimes $ebp / .undef of a callee-saved register)
+                let mut p = String::from("$eip .raSearch ^ = $esp .raSearch 4 + =");
+                match rng.below(4) {
+                    0 => p.push_str(" $ebp .raSearch 4 - ^ ="),
+                    1 => p.push_str(" $ebx .undef ="),
+                    2 => p.push_str(" $ebp .undef = $esi $T0 ="),
+                    _ => {}
+                }
+                p
+            } else {
+                gen::program(rng)
+            };
+            if rng.chance(2, 3) {
+                recs.push(Rec { ty: '4', addr: lo, size, par: small(rng), sav: small(rng), loc: small(rng), hp: '1', rest: prog.into_bytes() });
+            } else {
+                let rest = if rng.chance(1, 2) { "0" } else { "1" };
+                recs.push(Rec { ty: '0', addr: lo, size, par: small(rng), sav: small(rng), loc: small(rng), hp: '0', rest: rest.as_bytes().to_vec() });
+            }
+            emit(render(&Case {
+                mode: "stack".into(),
+                base,
+                instr: eip as u64,
+                has_gc: false,
+                gc_param: 0,
+                cfi: rng.chance(1, 8),
+                regs,
+                mem_base,
+                mem,
+                recs,
+            }));
+        }
+    }
+
+    struct Frame1 {
+        trust_cfi: bool,
+        valid: BTreeMap<String, u32>,
+    }
+
+    fn run(c: &Case) -> Result<Option<Frame1>, String> {
+        let mut raw = CONTEXT_X86::default();
+        let mut valid: HashSet<&'static str> = HashSet::new();
+        for (n, v) in &c.regs {
+            let Some(m) = memoize(n) else { return Err(format!("bad-register {n}")) };
+            valid.insert(m);
+            match m {
+                "eip" => raw.eip = *v,
+                "esp" => raw.esp = *v,
+                "ebp" => raw.ebp = *v,
+                "ebx" => raw.ebx = *v,
+                "esi" => raw.esi = *v,
+                "edi" => raw.edi = *v,
+                "eax" => raw.eax = *v,
+                "ecx" => raw.ecx = *v,
+                "edx" => raw.edx = *v,
+                _ => raw.eflags = *v,
+            }
+        }
+        let text = symbol_text(c);
+        let base = c.base;
+        let mem_base = c.mem_base;
+        let bytes = c.mem.clone();
+        catch(move || {
+            let context = MinidumpContext { raw: MinidumpRawContext::X86(raw), valid: MinidumpContextValidity::Some(valid) };
+            let modules = MinidumpModuleList::from_modules(vec![MinidumpModule::new(base, MODULE_SIZE, "module1")]);
+            let stack_memory = MinidumpMemory {
+                desc: Default::default(),
+                base_address: mem_base,
+                size: bytes.len() as u64,
+                bytes: &bytes,
+                endian: scroll::LE,
+            };
+            let system_info = SystemInfo {
+                os: Os::Windows,
+                os_version: None,
+                os_build: None,
+                cpu: Cpu::X86,
+                cpu_info: None,
+                cpu_microcode_version: None,
+                cpu_count: 1,
+            };
+            let mut symbols = HashMap::new();
+            symbols.insert("module1".to_string(), text);
+            let symbolizer = Symbolizer::new(string_symbol_supplier(symbols));
+            let mut stack = CallStack::with_context(context);
+            let rt = tokio::runtime::Builder::new_current_thread().build().unwrap();
+            rt.block_on(walk_stack(
+                0,
+                (),
+                &mut stack,
+                Some(UnifiedMemory::Memory(&stack_memory)),
+                &modules,
+                &system_info,
+                &symbolizer,
+            ));
+            stack.frames.get(1).map(|f| {
+                let mut valid = BTreeMap::new();
+                if let MinidumpRawContext::X86(ctx) = &f.context.raw {
+                    for r in X86_REGS {
+                        let is_valid = match &f.context.valid {
+                            MinidumpContextValidity::All => true,
+                            MinidumpContextValidity::Some(w) => w.contains(r),
+                        };
+                        if is_valid {
+                            let v = match r {
+                                "eip" => ctx.eip,
+                                "esp" => ctx.esp,
+                                "ebp" => ctx.ebp,
+                                "ebx" => ctx.ebx,
+                                "esi" => ctx.esi,
+                                "edi" => ctx.edi,
+                                "eax" => ctx.eax,
+                                "ecx" => ctx.ecx,
+                                "edx" => ctx.edx,
+                                _ => ctx.eflags,
+                            };
+                            valid.insert(r.to_string(), v);
+                        }
+                    }
+                }
+                Frame1 { trust_cfi: f.trust == FrameTrust::CallFrameInfo, valid }
+            })
+        })
+    }
+
+    pub fn exec(c: &Case) -> ImplResult {
         let mut res = ImplResult::default();
-        res.out = "bad-op".into();
+        if c.has_gc || c.gc_param != 0 || c.instr < c.base || c.instr - c.base >= MODULE_SIZE as u64 || c.instr > u32::MAX as u64 {
+            res.out = "bad-op".into();
+            return res;
+        }
+        let f1 = match run(c) {
+            Ok(f) => f,
+            Err(msg) if msg.starts_with("bad-register") => {
+                res.out = "bad-op".into();
+                return res;
+            }
+            Err(msg) => {
+                res.out = "PANIC".into();
+                res.oracle.push(("win-panic".into(), format!("walk_stack: {msg}")));
+                return res;
+            }
+        };
+        res.out = match &f1 {
+            None => "stack noframe".into(),
+            Some(f) => format!(
+                "stack {} {}",
+                if f.trust_cfi { "cfi" } else { "other" },
+                f.valid.iter().map(|(n, v)| format!("{n}={v:x}")).collect::<Vec<_>>().join(",")
+            ),
+        };
+        // documented result of the selected record
+        let Some(sel) = doc_select(c) else { return res };
+        let callee: BTreeMap<&str, u32> = c.regs.iter().map(|(n, v)| (n.as_str(), *v)).collect();
+        let env = DocEnv { regs: callee.clone(), case: c };
+        let doc = match sel {
+            None => Doc::Fail,
+            Some((true, r)) => doc_framedata(r, &env),
+            Some((false, r)) => doc_fpo(r, r.rest == b"1", &env),
+        };
+        res.tags.push(format!("stack:{}", match (&doc, &f1) {
+            (Doc::Known(_), Some(f)) if f.trust_cfi => "win-frame",
+            (Doc::Known(_), _) => "win-rejected",
+            (Doc::Fail, Some(f)) if f.trust_cfi => "cfi-frame",
+            _ => "other",
+        }));
+        let callee_esp = callee.get("esp").copied();
+        // the stack pointer must be inside the stack memory, else walk_stack does not unwind at all
+        let sp_in_stack = callee_esp.is_some_and(|sp| (sp as u64) >= c.mem_base && ((sp as u64) - c.mem_base) < c.mem.len() as u64);
+        if let Doc::Known(k) = &doc {
+            res.nontrivial = true;
+            let usable = sp_in_stack
+                && k.get("eip").is_some_and(|ip| *ip >= 4096)
+                && k.get("esp").is_some_and(|sp| Some(*sp) > callee_esp);
+            match &f1 {
+                Some(f) if f.trust_cfi => {
+                    for r in SIX {
+                        match (k.get(r), f.valid.get(r)) {
+                            (Some(a), Some(b)) if a == b => {}
+                            (None, None) => {}
+                            (Some(a), got) => res.oracle.push((
+                                "win-stack-doc-mismatch".into(),
+                                format!("caller frame {r}: documentation {a:x}, walk_stack {got:x?}"),
+                            )),
+                            (None, Some(b)) => {
+                                let forwarded = CALLEE_SAVED.contains(&r) && callee.get(r) == Some(b);
+                                res.oracle.push((
+                                    if forwarded { "win-stack-forwarding" } else { "win-stack-implicit" }.into(),
+                                    format!("caller frame (trust=cfi) lists {r}={b:x} as valid although the STACK WIN record did not set it"),
+                                ));
+                            }
+                        }
+                    }
+                    for n in f.valid.keys() {
+                        if !SIX.contains(&n.as_str()) {
+                            res.oracle.push(("win-non-output-set".into(), format!("caller frame lists {n} as valid")));
+                        }
+                    }
+                }
+                _ if usable => res.oracle.push((
+                    "win-stack-doc-mismatch".into(),
+                    format!("documentation: caller registers {k:x?}; walk_stack produced {}", res.out),
+                )),
+                _ => {}
+            }
+        }
         res
     }
 }
